@@ -127,6 +127,7 @@ produceLoop:
 			verifJSONEvent(verifID, "crecv", outJobs[0].line)
 			verifJSONEvent(verifID, "ctok", 0)
 			<-outChanAvailableTokens
+			verifJSONArrival(outJobs[0].line, len(outJobs))
 			for i := range outJobs {
 				out := outJobs[i]
 				if err := out.err; err != nil {
@@ -159,6 +160,7 @@ produceLoop:
 			}
 			verifJSONEvent(verifID, "cdone", 0)
 			fileReaderIsDone = true
+			verifJSONReaderDone()
 			done = nil // will block this select branch from now on
 			if fileReaderIsDone && startIndex == linesRead {
 				verifJSONEvent(verifID, "cbreak", linesRead)
